@@ -109,11 +109,6 @@ def check_cap(ctx):
     if not ok:
         return None
     I = top[0]
-    ex = [norm_src(s) for s in I.orelse]
-    okx = ex in (["self.curr_node = node_list[0][0]", "return node_list[0][0].get_cpoint()"],
-                 ["self.curr_node = self.partition.get_root()", "return self.partition.get_root().get_cpoint()"])
-    ctx.ob("R12-CAP", okx, c.file, q, "exhausted schedule: hand out the root's centre, touch nothing else",
-           "%s" % ex, I.lineno)
     pre = [norm_src(s) for s in body[:-1]]
     okp = set(pre) <= {"node_list = self.partition.get_node_list()", "self.iteration = %s" % pull.args.args[1].arg}
     ctx.ob("R12-CAP", okp, c.file, q, "nothing happens before the cap test", "%s" % pre, pull.lineno, nontrivial=False)
@@ -159,66 +154,124 @@ def check_open(ctx, I):
     op = model.own_method(ncls, "open")
     okn = okn and [norm_src(s) for s in strip_doc(op.body)] == ["self.opened = True"]
     ctx.ob("R12-OPEN", okn, model.cls(ncls).file, "%s.not_opened/open" % ncls, "opened flag", "open() sets it, not_opened() reads it", no.lineno, nontrivial=False)
-    # ---- hand-out of the children, one by one, in order
-    for name, blk, cell in (("root", root_blk, None), ("depth>=1", deep_blk, f.best)):
-        outs = [s for s in blk if isinstance(s, ast.If) and norm_src(s.test).startswith("self.loc < len(")]
-        if len(outs) != 1:
-            ctx.violation("R12-OPEN", c.file, q, "%s: hand-out of the children" % name, "hand-out block not recognised", inner[0].lineno)
-            continue
-        H = outs[0]
-        ch = norm_src(H.test)[len("self.loc < len("):-1]
-        cellname = ch[: ch.rfind(".get_children()")] if ch.endswith(".get_children()") else None
-        if cell is not None:
-            ctx.ob("R12-OPEN", cellname == cell, c.file, q, "%s: the children handed out are those of the selected cell" % name, "%s vs %s" % (cellname, cell), H.lineno)
-        split = [s for s in H.body if isinstance(s, ast.If)]
-        oks = len(split) == 1 and norm_src(split[0].test) == "self.loc == len(%s) - 1" % ch and len(H.body) == 1 and not H.orelse
-        ctx.ob("R12-OPEN", oks, c.file, q, "%s: last child vs earlier child" % name, norm_src(split[0].test) if split else "?", H.lineno, nontrivial=False)
-        if not oks:
-            continue
-        last, early = [norm_src(s) for s in split[0].body], [norm_src(s) for s in split[0].orelse]
-        e_want = {"self.loc += 1", "self.chosen.append(%s[self.loc - 1])" % ch, "self.curr_node = %s[self.loc - 1]" % ch,
-                  "return %s[self.loc - 1].get_cpoint()" % ch}
-        oke = set(early) == e_want and early[0] == "self.loc += 1" and early[-1].startswith("return")
-        ctx.ob("R12-OPEN", oke, c.file, q, "%s: earlier children are handed out in order (index loc, then loc+1)" % name, "%s" % early, split[0].lineno)
-        l_core = {"self.loc = 0", "self.chosen.append(%s[-1])" % ch, "self.curr_node = %s[-1]" % ch, "return %s[-1].get_cpoint()" % ch}
-        if cell is None:
-            l_want = l_core | {"self.curr_depth += 1", "self.budget = math.floor(self.h_max / self.curr_depth)"}
-            okl = set(last) == l_want
-        else:
-            adv = [s for s in split[0].body if isinstance(s, ast.If)]
-            rest = {norm_src(s) for s in split[0].body if not isinstance(s, ast.If)}
-            okl = rest == l_core | {"%s.open()" % cell, "self.budget -= 1"} and len(adv) == 1 and \
-                norm_src(adv[0].test) in ("self.budget == 0 or num == 1", "num == 1 or self.budget == 0") and \
-                [norm_src(s) for s in adv[0].body] == ["self.curr_depth += 1", "self.budget = math.floor(self.h_max / self.curr_depth)"] and not adv[0].orelse
-            if okl:
-                # order: open / decrement before the advance test; return last
-                idx = {norm_src(s): i for i, s in enumerate(split[0].body) if not isinstance(s, ast.If)}
-                ia = split[0].body.index(adv[0])
-                okl = idx["self.budget -= 1"] < ia and isinstance(split[0].body[-1], ast.Return)
-        ctx.ob("R12-OPEN", okl, c.file, q, "%s: the last child closes the opening (mark opened, loc = 0, budget - 1, advance depth when the budget is "
-               "used up or no unopened cell is left)" % name, "%s" % last, split[0].lineno)
+    # ---- hand-out of the children, one by one, in order: decided path by path (aliases expanded, so temporaries,
+    # merged branch tails and re-ordered independent statements do not matter)
+    check_handout_paths(ctx, f.best)
     # num counts the unopened cells of the layer
     nums = [s for s in ast.walk(pull) if isinstance(s, (ast.Assign, ast.AugAssign)) and norm_src(s.targets[0] if isinstance(s, ast.Assign) else s.target) == "num"]
     okn = [norm_src(s) for s in nums] == ["num = 0", "num += 1"] and any(s is nums[1] for s in model.up(f.if_node).body) if len(nums) == 2 else False
     ctx.ob("R12-OPEN", okn, c.file, q, "num = number of unopened cells of the current depth", "%s" % [norm_src(s) for s in nums], pull.lineno)
 
 
+ROOT = ("self.partition.get_node_list()[0][0]", "self.partition.get_root()", "self.partition.root")
+ADVANCE = ("self.budget = math.floor(self.h_max / self.curr_depth)", "self.budget = self.h_max // self.curr_depth",
+           "self.budget = int(np.floor(self.h_max / self.curr_depth))")
+
+
+def check_handout_paths(ctx, winner):
+    model = ctx.model
+    c = model.cls("SequOOL")
+    q = "SequOOL.pull"
+    fn, params, paths, fns = CR.method_paths(model, "SequOOL", "pull")
+    n_ret = 0
+    for p in paths:
+        rets = [e for e in p.events if e[0] == "ret"]
+        if not rets:
+            continue
+        n_ret += 1
+        cd = dict(p.conds)
+        r = rets[0]
+        label = "path [%s]" % " and ".join("%s%s" % ("" if pol else "not ", c0) for c0, pol in p.conds[-4:])
+        if not r[1].endswith(".get_cpoint()"):
+            ctx.violation("R12-OPEN", c.file, q, label, "returns '%s', not the representative of a cell" % r[1], r[3].lineno)
+            continue
+        cell = r[1][: -len(".get_cpoint()")]
+        calls = [e for e in p.events if e[0] in ("call", "loop-call")]
+        writes = [w for w in p.writes if not w[0].startswith("self.iteration")]
+        capped = cd.get("self.curr_depth <= self.h_max", cd.get("self.h_max >= self.curr_depth"))
+        if capped is False:
+            ok = cell in ROOT and [w[0] for w in writes] == ["self.curr_node"] and writes[0][2] in ROOT and not calls
+            ctx.ob("R12-CAP", ok, c.file, q, label, "exhausted schedule: hands out the root's centre, stores it as the cell to credit, nothing else"
+                   if ok else "exhausted branch does more: writes %s, calls %s, returns %s" % ([w[1] for w in writes], [e[1] for e in calls], cell), r[3].lineno)
+            continue
+        if capped is not True:
+            ctx.violation("R12-CAP", c.file, q, label, "a child is handed out on a path that is not under 'curr_depth <= h_max'", r[3].lineno)
+            continue
+        # which cell is being opened on this path
+        at_root = cd.get("self.curr_depth == 0")
+        parent = None
+        for cand in (list(ROOT) if at_root else [winner]):
+            for suffix in (".get_children()[-1]", ".get_children()[self.loc - 1]"):
+                if cell == cand + suffix:
+                    parent = cand
+        if parent is None:
+            ctx.violation("R12-OPEN", c.file, q, label, "the cell handed out (%s) is not a child of the cell being opened (%s)" % (
+                cell, "the root" if at_root else winner), r[3].lineno)
+            continue
+        C = parent + ".get_children()"
+        last = cd.get("self.loc == len(%s) - 1" % C)
+        inrange = cd.get("self.loc < len(%s)" % C)
+        wcur = [w for w in writes if w[0] == "self.curr_node"]
+        wch = [w for w in writes if w[0] == "self.chosen[]"]
+        wloc = [w for w in writes if w[0] == "self.loc"]
+        wbud = [w for w in writes if w[0] == "self.budget"]
+        wdep = [w for w in writes if w[0] == "self.curr_depth"]
+        other = [w for w in writes if w[0] not in ("self.curr_node", "self.chosen[]", "self.loc", "self.budget", "self.curr_depth")]
+        opens = [e for e in calls if e[1].endswith(".open")]
+        othercalls = [e for e in calls if not e[1].endswith(".open") and not e[1].endswith(".make_children")]
+        ok = inrange is True and last is not None and len(wcur) == 1 and wcur[0][2] == cell and len(wch) == 1 and wch[0][2] == cell and \
+            ".append(" in wch[0][1] and not other and not othercalls
+        why = []
+        if last is True:
+            ok = ok and cell == C + "[-1]" and len(wloc) == 1 and wloc[0][1].replace(" ", "") in ("self.loc=0",)
+            adv = [w[1] for w in wdep + wbud]
+            if at_root:
+                ok = ok and not opens and len(wdep) == 1 and wdep[0][1] in ("self.curr_depth += 1",) and len(wbud) == 1 and wbud[0][1] in ADVANCE
+                why.append("root fully handed out: depth 1 begins with budget floor(h_max/1)")
+            else:
+                ok = ok and len(opens) == 1 and opens[0][1] == parent + ".open" and wbud and wbud[0][1] == "self.budget -= 1"
+                used_up = cd.get("self.budget == 0 or num == 1", cd.get("num == 1 or self.budget == 0"))
+                if used_up is True:
+                    ok = ok and len(wdep) == 1 and wdep[0][1] == "self.curr_depth += 1" and len(wbud) == 2 and wbud[1][1] in ADVANCE
+                    why.append("last child: cell marked opened, budget - 1, depth advances with a fresh budget")
+                elif used_up is False:
+                    ok = ok and not wdep and len(wbud) == 1
+                    why.append("last child: cell marked opened, budget - 1")
+                else:
+                    ok = False
+                    why.append("no 'budget used up or no unopened cell left' test on this path")
+        else:
+            ok = ok and cell == C + "[self.loc - 1]" and len(wloc) == 1 and wloc[0][1] == "self.loc += 1" and not opens and not wbud and not wdep
+            # the increment must come before the cell is designated (index loc, then loc + 1 ...)
+            seqw = [it for it in p.seq if it[0] == "w"]
+            ok = ok and [it[1] for it in seqw].index("self.loc") < [it[1] for it in seqw].index("self.curr_node")
+            why.append("earlier child: child counter + 1, hand out child[loc - 1]")
+        ctx.ob("R12-OPEN", ok, c.file, q, label, "; ".join(why) + ": credited cell, searched point and returned representative are the same child"
+               if ok else "hand-out step not as published: returns %s; writes %s; calls %s" % (cell, [w[1] for w in writes], [e[1] for e in calls]),
+               r[3].lineno)
+    ctx.count("R12-OPEN value-returning paths of SequOOL.pull", n_ret, 5)
+
+
 def check_chosen(ctx):
+    """The searched points change only in pull (where the path rule ties each addition to a hand-out)."""
     model = ctx.model
     c = model.cls("SequOOL")
     n = 0
     for fn in c.methods.values():
         for call in ast.walk(fn):
             if isinstance(call, ast.Call) and isinstance(call.func, ast.Attribute) and is_self_attr(call.func.value, "chosen") and \
-                    call.func.attr in ("append", "extend", "insert", "pop", "remove", "clear"):
+                    call.func.attr in ("append", "extend", "insert", "pop", "remove", "clear", "sort", "reverse"):
                 n += 1
-                if call.func.attr == "append" and fn.name == "pull":
-                    ok, why = c07.chosen_append_ok(model, c, fn, call)
-                else:
-                    ok, why = False, ("the list of searched points is changed in %s by %s(): pulls after the schedule is exhausted (or bulk "
-                                      "additions) would alter the recommendation" % (fn.name, call.func.attr))
-                ctx.ob("R12-CHOSEN", ok, c.file, "SequOOL.%s" % fn.name, norm_src(call), why, call.lineno)
-    ctx.count("R12-CHOSEN sites that change the searched points", n, 4)
+                ok = fn.name == "pull" and call.func.attr == "append"
+                ctx.ob("R12-CHOSEN", ok, c.file, "SequOOL.%s" % fn.name, norm_src(call),
+                       "added in pull (tied to a hand-out by the path rule)" if ok else
+                       "the list of searched points is changed in %s by %s(): pulls after the schedule is exhausted (or bulk additions) would "
+                       "alter the recommendation" % (fn.name, call.func.attr), call.lineno)
+        for st in ast.walk(fn):
+            tg = st.targets if isinstance(st, ast.Assign) else ([st.target] if isinstance(st, (ast.AugAssign, ast.AnnAssign)) else [])
+            if fn.name != "__init__" and any(is_self_attr(t, "chosen") for t in tg):
+                ctx.violation("R12-CHOSEN", c.file, "SequOOL.%s" % fn.name, norm_src(st), "the list of searched points is replaced", st.lineno)
+    ctx.count("R12-CHOSEN sites that change the searched points", n, 1)
 
 
 def run(ctx):
